@@ -43,12 +43,24 @@ def child_main(argv: list[str]) -> int:
     rec.cls("package_loggers_enabled_for:" + os.environ.get("VMON_LOGLEVEL", "DEBUG"))
     if os.environ.get("VMON_QUIET_START"):
         rec.cls("process_started_with_a_quiet_bulk_parse")
-    if os.environ.get("VMON_AMBIENT") == "decimal":
+    ambient = set(filter(None, os.environ.get("VMON_AMBIENT", "").split(",")))
+    if "decimal" in ambient:
         import decimal
 
         decimal.getcontext().prec = 6
         decimal.getcontext().rounding = decimal.ROUND_DOWN
         decimal.setcontext(decimal.getcontext())
+    if "tracer" in ambient:
+        # a debugger / coverage tool / profiler is attached: sys.gettrace() is not None for the whole shard (the trace function
+        # declines local tracing, so only call events are delivered)
+        import threading
+
+        def _noop_trace(frame, event, arg):
+            return None
+
+        threading.settrace(_noop_trace)
+        sys.settrace(_noop_trace)
+    env_seen = install_env_probe()
     try:
         prop = load_prop(pid)
         if shard.get("__replay__"):
@@ -58,6 +70,10 @@ def child_main(argv: list[str]) -> int:
     except BaseException as e:  # the harness broke, not chartparse: inconclusive, never a violation
         rec.inconc(f"harness error in shard {shard.get('name')}: {type(e).__name__}: {e}")
         rec.diag(traceback.format_exc()[-3000:])
+    rec.mon("os.environ_probe_installed")
+    for name in sorted(env_seen):
+        rec.into("environment_variables_read_by_chartparse", name)
+        rec.mon("os.environ_lookups_from_chartparse_code")
     out = rec.dump()
     if shard.get("config"):  # a clone repeats a slice of an enumeration: its cases are not new ones
         out["disjoint"] = 0
@@ -66,6 +82,36 @@ def child_main(argv: list[str]) -> int:
     with open(out_file, "w") as f:
         json.dump(out, f)
     return 0
+
+
+def install_env_probe() -> set:
+    """Which environment variables does the code under observation consult? os.environ lookups (os.environ[k], .get, `in`, os.getenv)
+    all end in os._Environ.__getitem__; the probe notes the key when one of the nearest calling frames is chartparse code. The
+    runner then repeats one shard of every kind with each variable it has learnt about set to "1" (an opt-in switch is a
+    configuration like any other: whatever it switches on must still satisfy the properties)."""
+    seen: set = set()
+    try:
+        prefix = os.path.join(env.REPO, "chartparse") + os.sep
+        cls = type(os.environ)
+        orig = cls.__getitem__
+
+        def probe(self, key):
+            try:
+                f, depth = sys._getframe(1), 0
+                while f is not None and depth < 6:
+                    if f.f_code.co_filename.startswith(prefix):
+                        if isinstance(key, str):
+                            seen.add(key)
+                        break
+                    f, depth = f.f_back, depth + 1
+            except Exception:  # noqa
+                pass
+            return orig(self, key)
+
+        cls.__getitem__ = probe
+    except Exception:  # noqa
+        pass
+    return seen
 
 
 # ----------------------------------------------------------------------------------------- parent
@@ -82,7 +128,12 @@ CONFIGS = [
     ("-W error", {"env": {"VMON_WERROR": "1"}}),
     # the application's ambient numeric state: a thread-wide decimal context with 6 digits and ROUND_DOWN (set in child_main)
     ("decimal-context-lowered", {"env": {"VMON_AMBIENT": "decimal"}}),
+    # Python Development Mode: eager validation of codec error-handler names in open(), debug allocators, default warning filter
+    ("-X dev", {"pyflags": ["-X", "dev"]}),
+    # a trace function is installed for the whole shard (debugger, coverage, profiler): sys.gettrace() is not None
+    ("tracer-active", {"env": {"VMON_AMBIENT": "tracer"}}),
 ]
+NOT_A_SWITCH = ("VMON_", "PYTHON", "PATH", "HOME", "LANG", "LC_", "TMP", "TEMP", "USER", "PWD", "SHELL", "TERM", "CHARTPARSE_VERIF")
 
 
 def config_variants(pid: str, shards: list[dict], seed: int, tier: str) -> list[dict]:
@@ -318,7 +369,21 @@ def main(argv: list[str]) -> int:
         sh["env"] = e
     shards = shards + config_variants(pid, shards, seed, tier)
     watchdog = getattr(prop, "WATCHDOG", {"quick": 900, "thorough": 5400})[tier]
-    agg = merge(run_children(pid, tier, seed, shards, watchdog))
+    results = run_children(pid, tier, seed, shards, watchdog)
+    # environment switches the code under observation was SEEN to consult (install_env_probe): one shard of every kind is run again
+    # with all of them set to "1", and with each alone when there are several
+    names = sorted({n for r in results for n in r.get("sets", {}).get("environment_variables_read_by_chartparse", [])
+                    if isinstance(n, str) and not n.startswith(NOT_A_SWITCH)})
+    if names and not getattr(prop, "OWN_CONFIGS", False) and not any(r.get("violations") for r in results):
+        base = [s for s in shards if not s.get("config")]
+        combos = [names] + ([[n] for n in names[:4]] if len(names) > 1 else [])
+        extra = []
+        for combo in combos:
+            label = "env:" + "+".join(combo)
+            CONFIGS.append((label, {"env": {n: "1" for n in combo}}))
+            extra += [s for s in config_variants(pid, base, seed, tier) if s.get("config") == label]
+        results += run_children(pid, tier, seed, extra, watchdog)
+    agg = merge(results)
 
     # gates: a check that observed nothing, or never reached a required class, is inconclusive
     if agg["evaluations"] == 0:
